@@ -90,6 +90,7 @@ def run(ctx):
     ctx.samples[:0] = samples[:6]
     ctx.floor("R1", 7)
 
+    _same_file_key(ctx, lw)
     # ---- R2 registration covers what the loaders write ---------------------------------------------
     by_loader = {}
     for reg in regs:
@@ -179,3 +180,51 @@ def _objs(I):
         from ptstat.symval import SymObj as SO
         I._objcache = {o.id: o for o in gc.get_objects() if isinstance(o, SO) and o.id in I.heap}
     return I._objcache.values()
+
+
+def _same_file_key(ctx, lw):
+    """Atoms whose symbols differ only in case (the neutron 'n' and nitrogen 'N') would name the same data file: what each
+    serves from its x-ray record (table, scattering factors) is what it serves alone, whichever of them was asked first."""
+    import sympy as sp
+    I = lw.I
+    syms = {}
+    for z in range(0, 119):
+        try:
+            e = I.lib.subscript(I, lw.P, sp.Integer(z))
+        except SymRaise:
+            continue
+        syms.setdefault(str(I.heap[e.id].get("symbol")).lower(), []).append(z)
+    clashes = [zs for zs in syms.values() if len(zs) > 1]
+    site = "periodictable/xsf.py Xray (data file named by the lower-cased symbol)"
+    lw.restore(lw.boot_snapshot)
+    base = lw.snapshot()
+
+    def served(z, what):
+        a = I.lib.subscript(I, lw.P, sp.Integer(z))
+        try:
+            x = I.getattr(a, "xray")
+            v = I.getattr(x, what)
+            if what == "scattering_factors":
+                v = I.call(v, [], {"energy": sp.Rational(1, 50)})
+            return ("value", lw.digest(v))
+        except SymRaise as e:
+            return ("raises " + e.exc,)
+    n = 0
+    for zs in clashes:
+        for what in ("sftable", "scattering_factors"):
+            alone = {}
+            for z in zs:
+                lw.restore(base)
+                alone[z] = served(z, what)
+            for first in zs:
+                for second in zs:
+                    if first == second:
+                        continue
+                    lw.restore(base)
+                    served(first, what)
+                    got = served(second, what)
+                    n += 1
+                    ctx.check(got == alone[second], "R3", f"x-ray {what} of element {second} after element {first} (same lower-cased symbol) was asked first",
+                              f"serves {_short(got, 90)} instead of {_short(alone[second], 90)}", site)
+    lw.restore(base)
+    ctx.check(n >= 4, "R3", "self-check: the table has atoms whose symbols differ only in case (n / N)", f"{clashes}", site)
